@@ -248,6 +248,44 @@ def rule_loop(ctx, rep):
                   "%s does not re-test in_progress_destroy inside its level loop" % name, [t.name])
 
 
+def rule_partition(ctx, rep):
+    """partition_resize_helper: the whole range is processed on every return: either worker threads ran and were
+    joined (thread count != 0) and nothing is left (start == 0), or the remaining range is done inline"""
+    from . import lfht
+    f = lfht.fn(ctx, "partition_resize_helper")
+    rep.touch(f)
+    fb = [i for i in f.all_insts() if i.op == "icall" and ir.expr(f, i.d["fp"]) == ("arg", 3)]
+    joins = pat.calls(f, "pthread_join")
+    pat.require(fb and joins, "partition_resize_helper anatomy (inline fallback / join)")
+    # bound of the join loop = number of threads actually created
+    bound = None
+    for comp in f.sccs():
+        if any(j.blk.id in comp for j in joins):
+            for b in comp:
+                for s_ in f.blocks[b].succ:
+                    for a in ir.edge_atoms(f, b, s_):
+                        if a[0] == "ult" and s_ in comp:
+                            bound = a[2]
+    pat.require(bound is not None, "join loop bound not recognised")
+    good = []
+    for b in f.blocks:
+        t = b.insts[-1]
+        if t.op != "br" or len(t.d["succ"]) != 2 or t.d["succ"][0] == t.d["succ"][1]:
+            continue
+        e = ir.expr(f, t.args[0], 8)
+        for k, s_ in enumerate(t.d["succ"]):
+            lv = []
+            pat.leaf_atoms(e if e[0] in ("icmp", "bin", "select") else ("icmp", "ne", e, ("c", 0)), k == 0, lv)
+            if any((a[0] in ("ugt", "ne") and a[1] == bound and a[2] == ("c", 0)) or (a[0] == "uge" and a[1] == bound and a[2][0] == "c" and a[2][1] >= 1) for a in lv):
+                good.append((b.id, s_))
+    rep.must_take_edge("C09.partition", "helper.inline-unless-threads-ran", f, joins, None, good, to_exit=True, include_start=False, avoid=lambda i: i in fb,
+                       what="after joining, the helper returns without running the inline fallback only if at least one worker thread was created")
+    rep.must_take_edge("C09.partition", "helper.fallback-or-threads", f, [f.entry()], None, good, to_exit=True, include_start=True, avoid=lambda i: i in fb,
+                       what="every return either ran the inline fallback or passed the `threads created > 0` test")
+    for i in fb:
+        rep.check(ir.expr(f, i.args[0]) == ("arg", 0) and ir.expr(f, i.args[1]) == ("arg", 1), "C09.partition", "helper.fallback-args", "fallback processes the same table and level", "fallback called on different table/level", [i.where()])
+
+
 def rule_order(ctx, rep):
     from . import lfht
     lfht.rule_grow(ctx, rep, "C09.order")
@@ -259,5 +297,6 @@ RULES = [
     ("C09.size", rule_size),
     ("C09.order", rule_order),
     ("C09.loop", rule_loop),
+    ("C09.partition", rule_partition),
 ]
 FLOORS = {"C09.pow2": 4}
